@@ -149,7 +149,7 @@ static void lg_name_random(lg_name_t *nm, vh_rng_t *r)
   if (k < 9) {
     /* long name: close to / above 255 octets */
     uint8_t lab[40];
-    int     target = lg_gen_odd ? vh_range(r, 200, 300) : vh_range(r, 120, 250);
+    int     target = lg_gen_odd ? vh_range(r, 200, 300) : vh_range(r, 120, 200);
     memset(lab, 'l', sizeof(lab));
     while ((int)nm->n + 41 < target && nm->n + 42 < sizeof(nm->w)) {
       lab[0] = (uint8_t)('a' + vh_below(r, 26));
